@@ -58,6 +58,19 @@ def run(chk):
                    s0 + b"\n" + foreign, s0 + s0, s0[:sig_at] + b"\n" + foreign + b"\n" + s0[sig_at:], s0.replace(b"\n", b"\r\n"),
                    s0.replace(b"hello", b"hello "), s0.replace(b"Hash: SHA256", b"Hash: SHA1"), s0.replace(b"hello", b"hellp")]:
             cases.append(("csread", [kr, sp])); tags.append("splice")
+    # armor headers are NOT signed: whatever header lines stand in the signature armor (Version, Comment, Charset ...), the
+    # paragraphs returned are those of the signed text, byte for byte - also when that text is not ASCII
+    na = [b"Source: caf\xc3\xa9\nMaintainer: Jos\xc3\xa9 <j@x.org>\nDescription: na\xc3\xafve\n r\xc3\xa9sum\xc3\xa9\n", b"Source: latin1\nMaintainer: Jos\xe9 <j@x.org>\nComment: \xa0\xff\n",
+          b"Source: ascii\nVersion: 1\n"]
+    ns = sign(chk, [(0, t) for t in na])
+    for t, sd in zip(na, ns):
+        mark = b"-----BEGIN PGP SIGNATURE-----\n"
+        k = sd.index(mark) + len(mark)
+        for hdr in (b"Charset: ISO-8859-1\n", b"Charset: latin1\n", b"Charset: UTF-8\n", b"Version: GnuPG v1\n", b"Comment: Source: evil\n", b"Charset: iso8859-1\nComment: x\n",
+                    b"Hash: SHA1\n", b"X-Unknown: 1\n"):
+            for kr in (b"0", b"01", b"1", b"n"):
+                cases.append(("csread", [kr, sd[:k] + hdr + sd[k:]])); tags.append("armor-headers")
+        cases.append(("csread", [b"0", sd])); tags.append("armor-headers")
     # several signature packets in ONE armor (OpenPGP allows it): stale, foreign, empty-text and good signatures in every
     # order of two and some of three; the library's CheckDetachedSignature decides, over the text that is then parsed
     evil = b"Source: evil\nVersion: 9\n"
